@@ -20,7 +20,7 @@ ANCHORS = ["raggedarray/__init__.py::RaggedArray.sum", "raggedarray/__init__.py:
            "raggedarray/indexablearray.py::IndexableArray.get_column_values", "raggedshape.py::ViewBase.unravel_multi_index"]
 OPS = ["sum0", "np.sum0", "mean0", "np.mean0", "col_counts", "getcol"]
 FLOOR_TAGS = ["op:" + o for o in OPS] + ["kind:b", "kind:i", "kind:u", "kind:f", "e-first", "e-last", "e-mid", "e-consec", "e-none", "very-different-lengths",
-                                         "recv:fresh", "recv:lazyrows", "recv:lazycols+2", "recv:lazycols-1", "recv:lazychain", "getcol:last", "getcol:0", "axis:numpy-integer", "v:nonfinite"]
+                                         "recv:fresh", "recv:lazyrows", "recv:lazycols+2", "recv:lazycols-1", "recv:lazychain", "getcol:last", "getcol:0", "axis:numpy-integer", "v:nonfinite", "op-write-op"]
 FLOOR_MONITORS = ["c09:compare", "c09:result-independent"]
 FP_STRICT = True       # a floating-point event inside the library that the dense computation does not have is a violation (shard.FpMonitor)
 N_RANDOM = {"quick": 30000, "thorough": 300000}
@@ -47,8 +47,33 @@ def run(case):
     M = max(lens)
     if M >= 8 and min(l for l in lens) <= 1 and n >= 2:
         tags.append("very-different-lengths")
-    cols = [[r[k] for r in rows if len(r) > k] for k in range(M)]
     ra, parent = c02.build_receiver(recv, flat, lens)
+    rw = case.get("rewrite")
+    if rw and recv != "readonly":
+        # the operation, then a write through a view the array hands out (its flat view, one of its rows) or through the array itself,
+        # then the operation again on the same object: anything remembered from the first pass must follow the write
+        tags.append("op-write-op")
+        first = {"sum0": lambda: ra.sum(axis=0), "np.sum0": lambda: np.sum(ra, axis=0), "mean0": lambda: ra.mean(axis=0), "np.mean0": lambda: np.mean(ra, axis=0),
+                 "col_counts": lambda: ra.col_counts(), "getcol": lambda: ra.get_column_values(j)}[op]
+        attempt(first)
+        pos = rw["pos"] % tot
+        nv = np.array(rw["val"]).astype(dt)
+        i_ = int(np.searchsorted(np.cumsum(lens), pos, side="right"))
+        j_ = pos - (int(np.cumsum(lens)[i_ - 1]) if i_ else 0)
+        flat = flat.copy()
+        flat[pos] = nv
+        if rw["how"] == "ravel":
+            ra.ravel()[pos] = nv
+        elif rw["how"] == "row":
+            ra[i_][j_] = nv
+        elif rw["how"] == "iterrow":
+            for k_, row_ in enumerate(ra):
+                if k_ == i_:
+                    row_[j_] = nv
+        else:
+            ra[i_, j_] = nv
+        rows = gen.split_rows(flat, lens)
+    cols = [[r[k] for r in rows if len(r) > k] for k in range(M)]
     before = peek(ra)
     desc = "%s%s of %s rows %s [%s receiver]" % (op, "(%d)" % j if op == "getcol" else "", dt, short([r.tolist() for r in rows], 200), recv)
     if op in ("sum0", "np.sum0"):
@@ -155,6 +180,8 @@ def gen_case(rng, lens, dtype, op=None, recv="fresh", vclass="small", j=None):
     if vclass in ("bigfloat", "nonfinite") and np.dtype(dtype).kind != "f":
         vclass = "small"
     c = mk_case(lens, dtype, _vals(rng, dtype, sum(lens), vclass), op, j, recv, vclass)
+    if rng.random() < 0.25 and vclass == "small":
+        c["rewrite"] = {"how": rng.choice(["ravel", "row", "iterrow", "cell"]), "pos": rng.randrange(10 ** 6), "val": rng.choice([0, 1, 3, 7])}
     if rng.random() < 0.3:
         c["axisform"] = rng.choice(["int64", "intp", "uint8", "int8", "int32"])
     return c
